@@ -1936,7 +1936,28 @@ class Generator:
                 sim.stats["gen.budget_exceeded"] += 1
                 op = None
             if op is not None:
-                ev = {"k": "edit", "c": c.cid, "ops": [op]}
+                ops = [op]
+                if rng.random() < sim.cfg.get("multi_op_p", 0.2):
+                    # a compound transaction: later commands are chosen against the document the
+                    # earlier ones produce (computed on a scratch transform; the event stays concrete)
+                    core_sim, core.CURRENT = core.CURRENT, None
+                    try:
+                        scratch = Transform(c.doc)
+                        with core.call_budget(COMMAND_CALL_BUDGET):
+                            gen.apply_op(scratch, op)
+                            for _ in range(rng.randint(1, 2)):
+                                k2 = rng.choices(kinds, weights)[0]
+                                s2 = (min(sel[0], scratch.doc.content.size), min(sel[1], scratch.doc.content.size))
+                                op2 = gen.gen_op(rng, k2, scratch.doc, s2, pool)
+                                if op2 is None:
+                                    break
+                                gen.apply_op(scratch, op2)
+                                ops.append(op2)
+                    except (core.BudgetExceeded, gen.Refused, Exception):  # noqa: BLE001
+                        pass
+                    finally:
+                        core.CURRENT = core_sim
+                ev = {"k": "edit", "c": c.cid, "ops": ops}
                 if ev_sel is not None:
                     ev["sel"] = ev_sel
                 self.emit(ev)
